@@ -15,6 +15,35 @@ func init() {
 }
 
 func runC15(c *Ctx) {
+	c.Rule("C15.SHAPE", "SIBLING: placeholder-shaped input is neutralised wherever it occurs, because unmasking replaces placeholders as substrings: placeholderShapedAt looks only forward from the position it is given — it never inspects the byte before it and never asks whether a neighbour is an identifier byte")
+	if fn := c.MustFunc("C15.SHAPE", "internal/sql.placeholderShapedAt"); fn != nil {
+		var bad []string
+		for _, in := range instrs(fn, false) {
+			if call, ok := in.(ssa.CallInstruction); ok {
+				nm := callName(call)
+				if callee := call.Common().StaticCallee(); callee != nil && callee.Pkg == fn.Pkg {
+					// any same-package helper: the function needs none to test the forward shape
+					bad = append(bad, "calls "+callee.Name())
+				} else if strings.HasPrefix(nm, "unicode.Is") {
+					bad = append(bad, "calls "+nm)
+				}
+			}
+			var idx ssa.Value
+			switch x := in.(type) {
+			case *ssa.Lookup:
+				idx = x.Index
+			case *ssa.Index:
+				idx = x.Index
+			}
+			if bo, ok := idx.(*ssa.BinOp); ok && bo.Op == token.SUB {
+				if _, isParam := bo.X.(*ssa.Parameter); isParam {
+					bad = append(bad, "reads the byte before the position")
+				}
+			}
+		}
+		sort.Strings(bad)
+		c.Check(len(bad) == 0, "C15.SHAPE", "placeholderShapedAt|substring-semantics", fn.Pos(), "shape test is position-local and forward-only", "placeholderShapedAt makes the match depend on its neighbours ("+strings.Join(bad, "; ")+"): a look-alike glued to an identifier (`x__STR_0__`) stays in the masked text, and UnmaskStringLiterals — which replaces substrings — splices a real literal into it (`SELECT x'v' …`): the statement executed is not the one validated")
+	}
 	p := c.P
 	c.Rule("C15.BACKSLASH", "WHO: MaskStringLiterals compares no byte with a backslash (the doubled quote is the only escape in '…' and \"…\"), and nowhere in internal/sql is a quote's predecessor byte (index i-1) compared with a backslash — escapes are consumed as pairs going forward")
 	c.Rule("C15.DOLLAR", "COVER: dollarQuoteTag admits digits in a tag, except as its first character")
